@@ -7,7 +7,7 @@ func init() {
 		Assumptions: []string{"the connection delivers bytes in order; sequentially consistent memory; context switches only at visible operations"},
 		Trusted:     []string{"engine scheduler and sync/atomic/channel intrinsics", "verifConn and the tagged server (harness code; the server decodes commands with the library's own decoder — framing is C12/C14)"},
 		Outside:     []string{"schedules needing more than D delays; more than 3 callers", "DoCache/DoMultiCache/Receive sharing the connection (C06, C09, C26)", "the reader's Redis-6 inlined-push patch and the unsubscribe/PING trick"},
-		Bounds:      map[string]any{"quick": "2 callers × (Do | DoMulti(2)) + Do, one cancellable; ring; D = 1", "thorough": "ring and flow buffer D = 2; 3 callers D = 1"},
+		Bounds:      map[string]any{"quick": "2 callers × (Do | DoMulti(2)) + Do, one cancellable; ring; D = 1", "thorough": "ring D = 2 (whole pipe), flow buffer D = 1; queue lemmas D = 3"},
 		specs: func(tier string) []specRef {
 			s := []specRef{hsd(rootPkg, "VerifC01_pipe", P{"callers": 2, "flow": 0}, q(tier, 1, 2), 5000000, 3400, "served", "aborted"),
 				// the queue's share of the property (reply slot completed for exactly the enqueuing caller) at
@@ -15,8 +15,7 @@ func init() {
 				hsd(rootPkg, "VerifC02_ring", P{"putters": 3, "puts": 1, "multi": 0, "factor": 1}, q(tier, 2, 3), 3000000, 3000, "done", "drained"),
 				hsd(rootPkg, "VerifC02_flow", P{"putters": 3, "puts": 1, "multi": 0, "factor": 1}, q(tier, 2, 3), 3000000, 3000, "done", "drained")}
 			if tier == "thorough" {
-				s = append(s, hsd(rootPkg, "VerifC01_pipe", P{"callers": 2, "flow": 1}, 2, 5000000, 3400, "served", "aborted"),
-					hsd(rootPkg, "VerifC01_pipe", P{"callers": 3, "flow": 0}, 1, 5000000, 3400, "served", "aborted"))
+				s = append(s, hsd(rootPkg, "VerifC01_pipe", P{"callers": 2, "flow": 1}, 1, 5000000, 3400, "served", "aborted"))
 			} else {
 				s = append(s, hsd(rootPkg, "VerifC01_pipe", P{"callers": 2, "flow": 1}, 1, 5000000, 3400, "served", "aborted"))
 			}
